@@ -92,7 +92,7 @@ PROPS = {
     ),
     "C07": dict(
         bin="c07", features=["polars"],
-        quick=[("dbg", 1.0), ("miri", 0.5)],
+        quick=[("dbg", 1.0), ("rel", 1.0)],
         thorough=[("dbg", 1.0), ("rel", 1.0), ("miri", 1.0), ("asan", 1.0)],
         floors={"cells_equal": 10000, "map_cells_equal": 1000, "accessors.deque": 20, "accessors.arrayview1(step-1)": 5,
                 "accessors.arrayview1(step3)": 5, "deque_wrapped": 10, "try_as_slice_offered": 10, "spyout.buffers_verified": 100},
